@@ -65,14 +65,16 @@ func (r *Loader) Load(rs io.ReadSeeker, chunk rac.Chunk) (dictionary []byte, ret
 	}
 	cRange := chunk.CSecondary
 
+	// Check the cRange size and the tTag. This comes before the cache lookup
+	// so that whether a chunk is valid does not depend on which chunks were
+	// loaded before it.
+	if (cRange.Size() < 8) || (chunk.TTag != 0xFF) {
+		return nil, errInvalidDictionary
+	}
+
 	// Load from the MRU cache, if it was loaded from the same cRange.
 	if (cRange == r.cachedRange) && !cRange.Empty() {
 		return r.cachedBytes, nil
-	}
-
-	// Check the cRange size and the tTag.
-	if (cRange.Size() < 8) || (chunk.TTag != 0xFF) {
-		return nil, errInvalidDictionary
 	}
 
 	// Read the dictionary size.
